@@ -1,5 +1,6 @@
 """C05 -- representations are word homomorphisms (U1, HAD, INV, FOLD, CONJ, DU, W1)."""
 from ..rules import misc_rules as MI
+from ..rules import fsa_rules as FS
 from ..rules import rep_rules as R
 from ..rules import cache_rules as CA
 from ..rules import sibling_rules as SI
@@ -27,6 +28,7 @@ def run(ctx):
     ctx.do(R.rule_had)
     ctx.do(MI.rule_defer1, REP, "Representation")
     ctx.do(MI.rule_resplit1, REP)
+    ctx.do(FS.rule_md1, REP, "Representation.__init__")
     ctx.do(MI.rule_genacc1, REP)
     ctx.do(R.rule_rep_structure)
     ctx.do(R.rule_w1)
